@@ -144,6 +144,9 @@ pub enum Child {
     Comment,
     Junk,
     Results(Vec<Child>),
+    /// an element the reply grammar does not know (`<commit-results>`, `<results>` …) wrapped around
+    /// children of the grammar
+    Wrap(&'static str, Vec<Child>),
 }
 
 impl Child {
@@ -156,6 +159,10 @@ impl Child {
             Child::Count(k) => format!("c{k}"),
             Child::Comment => "cmt".into(),
             Child::Junk => "junk".into(),
+            Child::Wrap(n, cs) => format!(
+                "W:{n}:{}",
+                if cs.is_empty() { "_".into() } else { cs.iter().map(|c| c.token()).collect::<Vec<_>>().join("+") }
+            ),
             Child::Results(cs) => {
                 format!(
                     "R:{}",
@@ -200,6 +207,7 @@ impl Child {
             Child::Count(k) => format!("<load-error-count>{k}</load-error-count>"),
             Child::Comment => "<!-- c -->".into(),
             Child::Junk => "<unexpected-element/>".into(),
+            Child::Wrap(n, cs) => format!("<{n}>{}</{n}>", cs.iter().map(|c| c.xml()).collect::<String>()),
             Child::Results(cs) => format!(
                 "<load-configuration-results>{}</load-configuration-results>",
                 cs.iter().map(|c| c.xml()).collect::<String>()
@@ -340,6 +348,29 @@ pub fn gen_docs(kind: &str, opts: &Opts, rng: &mut Rng) -> Vec<Vec<Child>> {
             docs.push(d);
         }
     }
+    // an element outside the grammar wrapped around errors, followed by the positive indication:
+    // whatever a reader does with an element it does not know, the error inside must not vanish
+    {
+        let a = alphabet(rng);
+        let (err_e, err_w) = (a[1].clone(), a[2].clone());
+        for name in ["commit-results", "results", "routing-engine", "load-configuration-results"] {
+            for inner in [vec![err_e.clone()], vec![err_w.clone(), err_e.clone()], vec![err_w.clone()], vec![]] {
+                let w = Child::Wrap(name, inner.clone());
+                let pos: Vec<Child> = match kind {
+                    "empty" => vec![Child::Ok],
+                    "data" => vec![Child::Data("<configuration><a>1</a></configuration>")],
+                    "load" => vec![Child::Results(vec![Child::Ok])],
+                    _ => vec![],
+                };
+                let mut d = vec![w.clone()];
+                d.extend(pos.clone());
+                docs.push(d);
+                let mut d = pos.clone();
+                d.push(w.clone());
+                docs.push(d);
+            }
+        }
+    }
     // many rpc-errors (limits on how many are kept): n warnings, then one of severity error, then the
     // positive indication — success would hide the error
     let a = alphabet(rng);
@@ -386,6 +417,14 @@ fn parse_token(t: &str) -> Option<Child> {
                 sev: leak(f[2]),
                 extra: 0,
             }
+        }
+        _ if t.starts_with("W:") => {
+            let (n, inner) = t[2..].split_once(':')?;
+            let leak = |s: &str| -> &'static str { Box::leak(s.to_string().into_boxed_str()) };
+            Child::Wrap(
+                leak(n),
+                if inner == "_" { vec![] } else { inner.split('+').map(parse_token).collect::<Option<Vec<_>>>()? },
+            )
         }
         _ if t.starts_with("R:") => {
             let inner = &t[2..];
